@@ -26,7 +26,10 @@ RULE = ("seeded generator of (a) v14 mania texts: keys 1..18, x on every column'
         "negative/large/fractional times, hit types 1/5 and hold types 128/132, all hitsound fields, random subsets of the 30 "
         "attributes with ASCII / non-ASCII / ':'-containing values, blank lines, trailing blanks, [Colours], sample events, "
         "background; (b) charts built from objects: unsorted rows, ties, fractional/negative offsets, bpm != 0 (incl. negative), "
-        "multipliers != 0, every key count; (c) write/read generations.  Non-trivial: at least one note or timing row; "
+        "multipliers != 0, every key count; (c) write/read generations.  A quarter of all cases (marked via_file) goes through the "
+        "file entry points: the text is written to a temporary directory as UTF-8 and read by OsuMap.read_file(path); the chart is "
+        "written by OsuMap.write_file(path) and the file is read back from disk (no newline translation) and judged like the list "
+        "write() returns.  Non-trivial: at least one note or timing row; "
         "distinct by hash of the canonical JSON of the input")
 ASSUMPTIONS = [
     "float printing (repr, str(float), ':g') is an oracle: written numeric tokens are compared by parsed value (rel. 1e-9); "
@@ -429,8 +432,12 @@ def generate(rng, tier):
               T4[:3] + ["0,500,4,0,0,0, 1,0"] + T4[3:],
               T4[:3] + ["[Colours]", "0,500,4,0,0,0,1,0"] + T4[3:]):
         cases.append({"kind": "read", "exact": True, "lines": w, "keys": 4})
+    # a quarter of the cases goes through the FILE entry points OsuMap.read_file(path) / OsuMap.write_file(path)
+    for c in cases:
+        if rng.random() < 0.25:
+            c["via_file"] = True
     # a few texts outside the dialect (both sides must raise)
-    cases.append({"kind": "read", "exact": True, "lines": ["osu file format v14", "[General]", "Mode: 3"], "keys": 4})
+    cases.append({"kind": "read", "exact": True, "via_file": True, "lines": ["osu file format v14", "[General]", "Mode: 3"], "keys": 4})
     cases.append({"kind": "read", "exact": True, "lines": [], "keys": 4})
     cases.append({"kind": "read", "exact": True, "lines": ["[Difficulty]", "CircleSize:4", "[TimingPoints]", "0,x,4,0,0,0,1,0",
                                                             "[HitObjects]"], "keys": 4})
@@ -536,12 +543,56 @@ def _file_lines(w):
 EXPECTED = (ValueError, IndexError, ZeroDivisionError, AttributeError, TypeError, AssertionError)
 
 
-def execute(case):
+def _read_map(lines, via_file):
+    """OsuMap.read(lines), or - for the share of cases marked via_file - the text written to disk as UTF-8 (no newline
+    translation by the harness) and read through the public OsuMap.read_file(path)"""
     from reamber.osu.OsuMap import OsuMap
+    if not via_file:
+        return OsuMap.read(list(lines))
+    import os, tempfile
+    with tempfile.TemporaryDirectory() as d:
+        path = os.path.join(d, "map.osu")
+        with open(path, "w", encoding="utf8", newline="") as f:
+            f.write("\n".join(lines))
+        return OsuMap.read_file(path)
+
+
+def _items_from_file(content):
+    """the text of a written file as the list OsuMap.write() returns: the blank lines in front of the two list headers are
+    part of those items ("\n[TimingPoints]", "\n\n[HitObjects]"); anything of another shape is returned as plain lines and
+    judged (and rejected) as such"""
+    ls = content.split("\n")
+    if "[TimingPoints]" in ls:
+        i = ls.index("[TimingPoints]")
+        if i >= 1 and ls[i - 1] == "":
+            ls[i - 1:i + 1] = ["\n[TimingPoints]"]
+    if "[HitObjects]" in ls:
+        j = ls.index("[HitObjects]")
+        if j >= 2 and ls[j - 1] == "" and ls[j - 2] == "":
+            ls[j - 2:j + 1] = ["\n\n[HitObjects]"]
+    return ls
+
+
+def _write_map(m, via_file):
+    """OsuMap.write(), or - via_file - OsuMap.write_file(path) and the file read back from disk as UTF-8 text (no newline
+    translation), brought to the list form of write()"""
+    if not via_file:
+        return list(m.write())
+    import os, tempfile
+    with tempfile.TemporaryDirectory() as d:
+        path = os.path.join(d, "map.osu")
+        m.write_file(path)
+        with open(path, "r", encoding="utf8", newline="") as f:
+            content = f.read()
+    return _items_from_file(content)
+
+
+def execute(case):
     kind = case["kind"]
+    vf = bool(case.get("via_file", False))
     if kind == "read":
         try:
-            m = OsuMap.read(list(case["lines"]))
+            m = _read_map(case["lines"], vf)
         except EXPECTED as e:
             return {"v": None, "exc": type(e).__name__}
         except Exception as e:
@@ -550,27 +601,27 @@ def execute(case):
             raise
         return {"v": dump_chart(m)}
     if kind == "rw":
-        m = OsuMap.read(list(case["lines"]))
+        m = _read_map(case["lines"], vf)
         ch = dump_chart(m)
         ut, ua = _uni(m)
-        return {"chart": ch, "ut": ut, "ua": ua, "v": list(m.write())}
+        return {"chart": ch, "ut": ut, "ua": ua, "v": _write_map(m, vf)}
     if kind == "write":
         m = build_map(case["chart"])
         ch = dump_chart(m)
         ut, ua = _uni(m)
         try:
-            w = list(m.write())
+            w = _write_map(m, vf)
         except EXPECTED as e:
             return {"chart": ch, "ut": ut, "ua": ua, "v": None, "exc": type(e).__name__}
         return {"chart": ch, "ut": ut, "ua": ua, "v": w}
     if kind == "gen":
         m = build_map(case["chart"])
-        w = list(m.write())
+        w = _write_map(m, vf)
         for _ in range(case.get("stage", 1) - 1):
-            w = list(OsuMap.read(_file_lines(w)).write())
-        m2 = OsuMap.read(_file_lines(w))
+            w = _write_map(_read_map(_file_lines(w), vf), vf)
+        m2 = _read_map(_file_lines(w), vf)
         ut, ua = _uni(m2)
-        return {"w1": w, "w2": list(m2.write()), "ut": ut, "ua": ua}
+        return {"w1": w, "w2": _write_map(m2, vf), "ut": ut, "ua": ua}
     raise ValueError(kind)
 
 
@@ -648,7 +699,7 @@ def nontrivial(case, out):
 
 
 def bucket(case, out):
-    k = case["kind"] + ("" if case.get("exact", True) else "-rounded")
+    k = case["kind"] + ("" if case.get("exact", True) else "-rounded") + ("-file" if case.get("via_file") else "")
     if case["kind"] in ("read", "rw"):
         k += f"/keys={case.get('keys')}"
     else:
